@@ -420,7 +420,10 @@ pub fn gen_element(rng: &mut Rng, cfg: &GenCfg, depth: usize) -> GTree {
                 continue;
             }
             seen.push(n);
-            kids.push(GTree::leaf(GValue::Attribute(n, gen_text(rng, cfg, false))));
+            // xml:id values are kept normalised and unique (the parser normalises them and
+            // rejects duplicates, so other values are outside the round-trip domain)
+            let value = if n == 1 { format!("i{:x}", rng.next() >> 24) } else { gen_text(rng, cfg, false) };
+            kids.push(GTree::leaf(GValue::Attribute(n, value)));
         }
     }
     if depth < cfg.max_depth {
